@@ -123,7 +123,70 @@ def ob_save(cx):
     """_save_pack_names: what is written, what is remembered, and the resynchronised memory view."""
     P, c, at_load, mine, disk = _mk(cx)
     log = []
+    _wire(cx, c, mine, log)
+    newly = c._save_pack_names()
+    fin = [e for e in log if e[0] == "finish"]
+    cx.require(len(fin) == 1, "index not built exactly once")
+    written = [(k[0].decode("ascii"), v) for k, v in fin[0][1]]
+    _check_merge(cx, written, at_load, mine, disk)
+    order = [e[0] for e in log if e[0] in ("lock", "put_file", "unlock")]
+    cx.require(order == ["lock", "put_file", "unlock"], "pack-names not written under the names lock: %r" % (order,))
+    # remembered as the new baseline
+    cx.require(len(list(c._packs_at_load)) == len(written), "_packs_at_load is not the written list")
+    # memory view equals what was written
+    cx.require(len(c._names) == len(written), "in-memory names differ from the written list")
+    for nm, v in written:
+        cx.require(nm in c._names, "written pack missing from memory")
+        sz = c._names[nm]
+        cx.require(_value(sz) == v, "in-memory sizes differ from the written value")
+    for nm in newly:
+        cx.require(s_or([nm == m for m, _ in mine]), "reported a pack it did not add as newly saved")
+    cx.observe("nwritten", len(written))
+    cx.cover("saved")
 
+
+def ob_reload_then_save(cx):
+    """A process with pending changes notices a concurrent change, reloads the pack list, and later saves: the list it
+    writes must be the on-disk list at save time with exactly its own pending additions and deletions applied."""
+    P, c, at_load, mine, disk1 = _mk(cx)
+    log = []
+    _wire(cx, c, mine, log)
+
+    class Repo2(c.repo):
+        @staticmethod
+        def is_locked():
+            return True
+    c.repo = Repo2
+    changed = c.reload_pack_names()
+    # others change the list again before we save
+    disk2 = _nodes(cx, "disk2", cx.choose("n_disk2", 0, cx.p("n")))
+    _same_content(cx, [at_load, mine, disk1, disk2])
+    c._iter_disk_pack_index = lambda: [(None, (nm.encode("ascii"),), _value(sz)) for nm, sz in disk2]
+    c._save_pack_names()
+    fin = [e for e in log if e[0] == "finish"]
+    cx.require(len(fin) == 1, "index not built exactly once")
+    written = [(k[0].decode("ascii"), v) for k, v in fin[0][1]]
+    universe = at_load + mine + disk1 + disk2
+    for x in universe:
+        own_new = s_and([_in(x, mine), s_not(_in(x, at_load))])
+        own_deleted = s_and([_in(x, at_load), s_not(_in(x, mine))])
+        # memory after the reload = the list read at reload time with the pending changes re-applied
+        in_mem = s_or([own_new, s_and([_in(x, disk1), s_not(own_deleted)])])
+        # the later save is the three-way merge relative to the list that was *last read* (disk1)
+        want = s_or([s_and([in_mem, s_not(_in(x, disk1))]),
+                     s_and([_in(x, disk2), s_not(s_and([_in(x, disk1), s_not(in_mem)]))])])
+        cx.require(_iff(_has(written, x), want),
+                   "after a reload the saved pack list is not the three-way merge relative to the list read at reload time")
+    for rn, rv in written:
+        cx.require(s_or([s_and([rn == nm, rv == _value(sz)]) for nm, sz in universe]),
+                   "saved pack list contains a node that is in none of the inputs")
+    cx.observe("changed", changed)
+    cx.observe("nwritten", len(written))
+    cx.cover("reloaded_and_saved")
+
+
+def _wire(cx, c, mine, log):
+    """Recording stubs for everything _save_pack_names / reload_pack_names touch besides the node arithmetic."""
     class Builder:
         def __init__(self):
             self.nodes = []
@@ -170,25 +233,6 @@ def ob_save(cx):
         sym_packs.append(p)
         return p
     c.get_pack_by_name = get_pack_by_name
-    newly = c._save_pack_names()
-    fin = [e for e in log if e[0] == "finish"]
-    cx.require(len(fin) == 1, "index not built exactly once")
-    written = [(k[0].decode("ascii"), v) for k, v in fin[0][1]]
-    _check_merge(cx, written, at_load, mine, disk)
-    order = [e[0] for e in log if e[0] in ("lock", "put_file", "unlock")]
-    cx.require(order == ["lock", "put_file", "unlock"], "pack-names not written under the names lock: %r" % (order,))
-    # remembered as the new baseline
-    cx.require(len(list(c._packs_at_load)) == len(written), "_packs_at_load is not the written list")
-    # memory view equals what was written
-    cx.require(len(c._names) == len(written), "in-memory names differ from the written list")
-    for nm, v in written:
-        cx.require(nm in c._names, "written pack missing from memory")
-        sz = c._names[nm]
-        cx.require(_value(sz) == v, "in-memory sizes differ from the written value")
-    for nm in newly:
-        cx.require(s_or([nm == m for m, _ in mine]), "reported a pack it did not add as newly saved")
-    cx.observe("nwritten", len(written))
-    cx.cover("saved")
 
 
 def obligations(tier):
@@ -206,4 +250,8 @@ def obligations(tier):
                   "0..%(maxsize)d each" % p),
         Ob("save_pack_names", ob_save, lift, p2, to, 4 if q else 10, ["saved"],
            bounds="<= %(n)d nodes per collection; names over %(alpha)r; sizes 0..%(maxsize)d" % p2),
+        Ob("reload_then_save", ob_reload_then_save, lift, dict(n=2, alpha="ab" if q else "abc", maxsize=9), to, 4 if q else 10,
+           ["reloaded_and_saved"],
+           bounds="reload_pack_names with pending changes, then others change the list again, then _save_pack_names: "
+                  "<= 2 nodes in each of at-load / in-memory / disk-at-reload / disk-at-save"),
     ]
